@@ -18,6 +18,16 @@
 // goroutine at the moment the job has created an output table in the target family, so the new
 // source file is not an input of the running job and must keep waiting), and up to 3
 // queries `select f from m ... group by host,time(<target>)`.
+// Target segments that are not open: a rollup job merges into a target interval only if the kv
+// store of the target segment is known to the store manager, otherwise it skips that interval
+// and the files keep waiting for it. Histories therefore also contain evict steps
+// (Engine.EvictSegment, the storage node's periodic task: every segment without a loaded tsdb
+// data family is closed - that is every target segment no query has looked at), query lookups
+// (Shard.GetDataFamilies on a target interval; reopens the segment) and writes that go either
+// through the data family the writer already holds (an existing write-ahead-log partition; the
+// target segments stay closed) or through the writer's family lookup (Shard.GetOrCrateDataFamily,
+// a new partition; reopens the target segments). A job may so complete one interval and skip the
+// other, skip all, and later catch up, while newer files wait for both intervals.
 // Not generated (unsound input): targets that are not a whole multiple of the source or that
 // neither divide 1 h nor are a multiple of it (DatabaseOption.Validate accepts them, nothing
 // documents them as supported; the rollup arithmetic base slot + source slot / ratio cannot be
@@ -28,9 +38,14 @@
 // (metricsdata reader) and must hold, per segment / family / metric / series / field / slot,
 // exactly the field-type aggregate of the points of the source files rolled up so far
 // (sum/min/max exact; first/last: one of the contributed values), nothing else and nothing
-// missing; the location (segment name, family name, slot) is computed with Go's calendar, not
+// missing ("rolled up so far" is kept per target interval: a file is rolled up into an interval
+// when a job of its family ran while it waited for that interval and the interval's segment was
+// open; in cases with evict steps the segments that are closed at a step are read when they are
+// open again, at the latest at the end of the history, where all are opened through the shard);
+// the location (segment name, family name, slot) is computed with Go's calendar, not
 // with lindb's calculators. After a rollup job the source families list exactly the files not
-// yet rolled up and no target family keeps a reference file. A crash image is restarted (once
+// yet rolled up, each for exactly the intervals it has not been rolled up into, and no target
+// family keeps a reference file. A crash image is restarted (once
 // or twice), rolled up again twice, and must then hold every source file exactly once.
 //
 // Non-trivial case: some target slot is fed by >= 2 source slots and >= 2 source files were
@@ -65,6 +80,7 @@ import (
 	"github.com/lindb/lindb/pkg/encoding"
 	"github.com/lindb/lindb/pkg/timeutil"
 	"github.com/lindb/lindb/series/field"
+	"github.com/lindb/lindb/series/metric"
 	"github.com/lindb/lindb/sql/stmt"
 	"github.com/lindb/lindb/tsdb"
 	"github.com/lindb/lindb/tsdb/tblstore/metricsdata"
@@ -156,11 +172,26 @@ type famPos struct {
 }
 
 type step struct {
-	Kind     string  `json:"kind"` // write | flush | rollup | reopen
-	Points   []point `json:"points,omitempty"`
-	Families []int   `json:"families,omitempty"` // flush/rollup: family indexes; empty = all
-	Force    bool    `json:"force,omitempty"`    // rollup through Store.ForceRollup (all families of the store, concurrently)
-	Crash    string  `json:"crash,omitempty"`    // rollup: take a crash image at this point of the rollup
+	Kind   string  `json:"kind"` // write | flush | rollup | reopen | evict | touch
+	Points []point `json:"points,omitempty"`
+	// write: the rows go straight into the data families the writer already holds (an existing
+	// write-ahead-log partition keeps its tsdb.DataFamily); otherwise the writer looks the family
+	// up with Shard.GetOrCrateDataFamily (a new partition), which also (re)opens the target
+	// segments of that family time.
+	Direct bool `json:"direct,omitempty"`
+	// evict: Engine.EvictSegment() (the storage node's periodic task) closes every segment - kv
+	// store - that has no loaded tsdb data family, i.e. every target segment that no query has
+	// looked at since it was opened. Keep = targets (indexes into targets()) that a query looks up
+	// right after the eviction (Shard.GetDataFamilies over every source family's hour): their
+	// segments are open again when the next rollup job runs, the others are not.
+	Keep []int `json:"keep,omitempty"`
+	// touch: the lookup of a query on target interval Target over the hour of source family
+	// TouchFam (Shard.GetDataFamilies); opens the segment if it is closed.
+	Target   int    `json:"target,omitempty"`
+	TouchFam int    `json:"touchFam,omitempty"`
+	Families []int  `json:"families,omitempty"` // flush/rollup: family indexes; empty = all
+	Force    bool   `json:"force,omitempty"`    // rollup through Store.ForceRollup (all families of the store, concurrently)
+	Crash    string `json:"crash,omitempty"`    // rollup: take a crash image at this point of the rollup
 	// rollup (one job after the other): source-side steps that run while a job is merging into the
 	// target (harness-owned interleaving, see inject)
 	Inject []inject `json:"inject,omitempty"`
@@ -227,7 +258,7 @@ var anchors = []string{
 func genPlan(t *rapid.T) *plan {
 	p := &plan{}
 	p.Source = int64(rapid.SampledFrom(sourceSecs).Draw(t, "sourceSec")) * sec
-	switch rapid.IntRange(0, 2).Draw(t, "targets") {
+	switch rapid.SampledFrom([]int{0, 1, 2, 2}).Draw(t, "targets") {
 	case 0:
 		p.Month = int64(rapid.SampledFrom(monthMins).Draw(t, "monthMin")) * minute
 	case 1:
@@ -281,7 +312,7 @@ func genPlan(t *rapid.T) *plan {
 	p.NSeries = rapid.IntRange(1, 5).Draw(t, "nSeries")
 
 	// steps
-	g := &stepGen{t: t, p: p, last: map[string]int{}, mem: map[int]bool{}, pend: map[int]bool{}, onlyFam: -1}
+	g := &stepGen{t: t, p: p, last: map[string]int{}, mem: map[int]bool{}, pend: map[int]bool{}, onlyFam: -1, closed: map[int]bool{}}
 	nSteps := rapid.IntRange(3, 10).Draw(t, "nSteps")
 	first := step{Kind: "write"}
 	if primeSeries {
@@ -290,32 +321,56 @@ func genPlan(t *rapid.T) *plan {
 	first.Points = append(first.Points, g.write().Points...)
 	p.Steps = append(p.Steps, g.commit(first))
 	crashUsed := false
+	// one rollup step, optionally with a crash image or harness-owned interleavings
+	mkRollup := func() step {
+		s := g.rollup()
+		if !crashUsed && !s.Force && g.hasPending(s.Families) && rapid.IntRange(0, 2).Draw(t, "crashHere") > 0 {
+			s.Crash = g.crashKind()
+			crashUsed = true
+		}
+		jobs := g.pendingOf(s.Families)
+		g.rolled(s.Families)
+		if s.Crash == "" && !s.Force && len(jobs) > 0 && rapid.IntRange(0, 2).Draw(t, "injectHere") == 0 {
+			s.Inject = g.injections(jobs)
+		}
+		return s
+	}
 	for i := 1; i < nSteps; i++ {
 		switch k := rapid.IntRange(0, 99).Draw(t, "stepKind"); {
-		case k < 35:
-			p.Steps = append(p.Steps, g.commit(g.write()))
-		case k < 60:
+		case k < 30:
+			p.Steps = append(p.Steps, g.writeStep())
+		case k < 52:
 			p.Steps = append(p.Steps, g.flush())
-		case k < 90:
-			s := g.rollup()
-			if !crashUsed && !s.Force && g.hasPending(s.Families) && rapid.IntRange(0, 2).Draw(t, "crashHere") > 0 {
-				s.Crash = g.crashKind()
-				crashUsed = true
-			}
-			jobs := g.pendingOf(s.Families)
-			g.rolled(s.Families)
-			if s.Crash == "" && !s.Force && len(jobs) > 0 && rapid.IntRange(0, 2).Draw(t, "injectHere") == 0 {
-				s.Inject = g.injections(jobs)
-			}
-			p.Steps = append(p.Steps, s)
-		default:
+		case k < 77:
+			p.Steps = append(p.Steps, mkRollup())
+		case k < 85:
 			g.reopened()
 			p.Steps = append(p.Steps, step{Kind: "reopen"})
+		default:
+			// segment eviction: a single evict / query lookup, or an episode (evict, then rounds
+			// of write, flush, rollup while target segments are closed or being reopened)
+			switch e := rapid.IntRange(0, 9).Draw(t, "evictKind"); {
+			case e < 6:
+				p.Steps = append(p.Steps, g.evictEpisode(mkRollup)...)
+			case e < 8 || len(g.closed) == 0:
+				p.Steps = append(p.Steps, g.evict())
+			default:
+				p.Steps = append(p.Steps, g.touch())
+			}
 		}
 	}
 	if rapid.IntRange(0, 9).Draw(t, "finalRollup") < 8 {
 		final := step{Kind: "rollup"}
 		p.Steps = append(p.Steps, g.flush())
+		if len(g.closed) > 0 && rapid.IntRange(0, 2).Draw(t, "lookupBeforeFinal") > 0 {
+			// queries look every closed target up again before the last rollup
+			for _, k := range g.closedList() {
+				for f := range p.Families {
+					p.Steps = append(p.Steps, step{Kind: "touch", Target: k, TouchFam: f})
+				}
+				delete(g.closed, k)
+			}
+		}
 		if !crashUsed && g.hasPending(nil) && rapid.Bool().Draw(t, "crashAtFinal") {
 			final.Crash = g.crashKind()
 		}
@@ -353,7 +408,8 @@ type stepGen struct {
 	last map[string]int
 	// families with rows in memory / with flushed files that wait for rollup (to place the crash image)
 	mem, pend map[int]bool
-	onlyFam   int // >= 0: write() puts every cluster into this family
+	onlyFam   int          // >= 0: write() puts every cluster into this family
+	closed    map[int]bool // see closedList
 }
 
 func (g *stepGen) hasPending(fams []int) bool {
@@ -462,7 +518,102 @@ func (g *stepGen) flushed(fams []int) {
 	}
 }
 
-func (g *stepGen) reopened() { g.flushed(nil) }
+func (g *stepGen) reopened() {
+	g.flushed(nil)
+	g.closed = map[int]bool{} // the harness reopens the source families the way a writer does: all target segments open
+}
+
+// closed is the generator's estimate (only used to place steps where they matter; the executor
+// reads the real state from the store manager): target indexes whose segments an eviction closed
+// and nothing has reopened since.
+func (g *stepGen) closedList() (rs []int) {
+	for k := range g.p.targets() {
+		if g.closed[k] {
+			rs = append(rs, k)
+		}
+	}
+	return rs
+}
+
+// writeStep: a write step; while target segments are (believed) closed the rows mostly go through
+// the data family the writer already holds, otherwise the writer's family lookup reopens them.
+func (g *stepGen) writeStep() step {
+	w := g.commit(g.write())
+	if len(g.closed) > 0 && rapid.IntRange(0, 3).Draw(g.t, "heldFamily") > 0 {
+		w.Direct = true
+	} else {
+		g.closed = map[int]bool{}
+	}
+	return w
+}
+
+// evict: Engine.EvictSegment, then a query looks some of the targets up again (Keep).
+func (g *stepGen) evict() step {
+	s := step{Kind: "evict"}
+	n := len(g.p.targets())
+	if n == 2 {
+		s.Keep = rapid.SampledFrom([][]int{nil, {0}, {1}, {0}, {1}, {0}, {1}}).Draw(g.t, "keep")
+	} else if rapid.IntRange(0, 3).Draw(g.t, "keepOnly") == 0 {
+		s.Keep = []int{0}
+	}
+	for k := 0; k < n; k++ {
+		g.closed[k] = true
+	}
+	for _, k := range s.Keep {
+		delete(g.closed, k)
+	}
+	return s
+}
+
+// touch: a query looks a (preferably closed) target up over the hour of one source family.
+func (g *stepGen) touch() step {
+	s := step{Kind: "touch"}
+	if cl := g.closedList(); len(cl) > 0 && rapid.IntRange(0, 3).Draw(g.t, "touchClosed") > 0 {
+		s.Target = rapid.SampledFrom(cl).Draw(g.t, "touchTarget")
+	} else {
+		s.Target = rapid.IntRange(0, len(g.p.targets())-1).Draw(g.t, "touchAnyTarget")
+	}
+	s.TouchFam = rapid.IntRange(0, len(g.p.Families)-1).Draw(g.t, "touchFam")
+	if len(g.p.Families) == 1 {
+		delete(g.closed, s.Target)
+	}
+	return s
+}
+
+// evictEpisode: optionally some files (rolled up or not) first, the eviction, then 1-3 rounds
+// of write (mostly into one focus family; through the held data family or through the writer's
+// family lookup, which reopens the target segments), flush, optionally a query lookup, rollup.
+func (g *stepGen) evictEpisode(mkRollup func() step) (rs []step) {
+	t := g.t
+	focus := rapid.IntRange(0, len(g.p.Families)-1).Draw(t, "episodeFamily")
+	write := func() {
+		if rapid.IntRange(0, 3).Draw(t, "episodeFocus") > 0 {
+			g.onlyFam = focus
+		}
+		rs = append(rs, g.writeStep())
+		g.onlyFam = -1
+	}
+	if rapid.Bool().Draw(t, "episodeFilesBefore") {
+		write()
+		rs = append(rs, g.flush())
+		if rapid.Bool().Draw(t, "episodeRollupBefore") {
+			rs = append(rs, mkRollup())
+		}
+	}
+	rs = append(rs, g.evict())
+	for r, n := 0, rapid.SampledFrom([]int{1, 2, 2, 3}).Draw(t, "episodeRounds"); r < n; r++ {
+		write()
+		rs = append(rs, g.flush())
+		if len(g.closed) > 0 && rapid.IntRange(0, 4).Draw(t, "episodeLookup") == 0 {
+			rs = append(rs, g.touch())
+		}
+		rs = append(rs, mkRollup())
+		if rapid.IntRange(0, 5).Draw(t, "episodeEvictAgain") == 0 {
+			rs = append(rs, g.evict())
+		}
+	}
+	return rs
+}
 
 func (g *stepGen) flush() step {
 	s := step{Kind: "flush", Families: g.subset("flush")}
@@ -675,14 +826,67 @@ type filePoints struct {
 	Points []point
 }
 
+// srcFile is one flushed source file and the target intervals it has been rolled up into.
+type srcFile struct {
+	filePoints
+	done map[int64]bool // target interval -> rolled up
+}
+
 type famState struct {
 	pos     famPos
 	df      tsdb.DataFamily
 	mem     []point
-	pending []filePoints // flushed, waiting for rollup (one source file each)
-	rolled  []filePoints
-	rollups int // rollup jobs run on this family
-	idx     int // index into plan.Families
+	files   []*srcFile // flushed source files in flush order
+	rollups int        // rollup jobs run on this family
+	idx     int        // index into plan.Families
+}
+
+// waitingFor lists the files of the family that still have to be rolled up into the target.
+func (f *famState) waitingFor(target int64) (rs []*srcFile) {
+	for _, sf := range f.files {
+		if !sf.done[target] {
+			rs = append(rs, sf)
+		}
+	}
+	return rs
+}
+
+// rolledInto lists the files of the family that were rolled up into the target.
+func (f *famState) rolledInto(target int64) (rs []filePoints) {
+	for _, sf := range f.files {
+		if sf.done[target] {
+			rs = append(rs, sf.filePoints)
+		}
+	}
+	return rs
+}
+
+// waiting lists the files that still wait for at least one of the targets, in flush order, with
+// the targets they wait for (ascending, as the configured intervals are sorted).
+func (f *famState) waiting(targets []int64) (rs []*srcFile, ivs [][]int64) {
+	for _, sf := range f.files {
+		var w []int64
+		for _, tg := range targets {
+			if !sf.done[tg] {
+				w = append(w, tg)
+			}
+		}
+		if len(w) > 0 {
+			rs = append(rs, sf)
+			ivs = append(ivs, w)
+		}
+	}
+	return rs, ivs
+}
+
+// rolledAny: files rolled up into at least one target.
+func (f *famState) rolledAny() (rs []filePoints) {
+	for _, sf := range f.files {
+		if len(sf.done) > 0 {
+			rs = append(rs, sf.filePoints)
+		}
+	}
+	return rs
 }
 
 // expected computes the expected cells of one target from the given source files.
@@ -726,6 +930,7 @@ type env struct {
 	nextID int
 
 	reopened bool
+	kvOnly   bool // see targetFamilies
 	classes  map[string]bool
 
 	crashDir   string // image directory (taken at most once)
@@ -801,7 +1006,105 @@ func (e *env) selected(idx []int) []*famState {
 	return rs
 }
 
-func (e *env) write(pts []point) {
+// targetStoreName is the name production gives the kv store of the target interval's segment
+// that holds ts (the segment name is computed with Go's calendar, see targetPos).
+func (e *env) targetStoreName(target int64, ts int64) string {
+	seg, _, _ := targetPos(target, ts)
+	return filepath.Join(e.n.Dir, "data", e.db, "shard", "0", "segment", typeDir(target), seg)
+}
+
+// targetOpen: is the target interval's segment for ts open (known to the store manager)? This is
+// the condition under which a rollup job of a source family at ts merges into that target;
+// otherwise the job skips the interval and the files keep waiting for it.
+func (e *env) targetOpen(target int64, ts int64) bool {
+	_, ok := kv.GetStoreManager().GetStoreByName(e.targetStoreName(target, ts))
+	return ok
+}
+
+// closedTargets lists (sorted) the target segments of the case's source families that are not open.
+func (e *env) closedTargets() (rs []string) {
+	seen := map[string]bool{}
+	for _, target := range e.p.targets() {
+		for _, f := range e.fams {
+			name := e.targetStoreName(target, f.pos.Time)
+			if !seen[name] && !e.targetOpen(target, f.pos.Time) {
+				rs = append(rs, name)
+			}
+			seen[name] = true
+		}
+	}
+	sort.Strings(rs)
+	return rs
+}
+
+// writeDirect writes the rows into the data family the harness holds, the way an existing
+// write-ahead-log partition does (replica.Partition keeps the tsdb.DataFamily it was created
+// with; Shard.GetOrCrateDataFamily is only called when a partition is created).
+func (e *env) writeDirect(f *famState, ms []*protoMetricsV1.Metric) error {
+	block, err := node.Block(ms)
+	if err != nil {
+		return err
+	}
+	rows := metric.NewStorageBatchRows()
+	rows.UnmarshalRows(block)
+	if rows.Len() != len(ms) {
+		return fmt.Errorf("harness: %d rows decoded from %d metrics", rows.Len(), len(ms))
+	}
+	return f.df.WriteRows(rows.Rows())
+}
+
+// evict runs the segment eviction of the storage node's periodic task (Engine.EvictSegment):
+// every segment without a loaded tsdb data family is closed, its kv store leaves the store
+// manager. Source segments always have their data families loaded here. Then a query looks the
+// kept targets up again.
+func (e *env) evict(s step) {
+	before := e.closedTargets()
+	e.n.Engine.EvictSegment()
+	for _, f := range e.fams {
+		name := filepath.Join(e.n.Dir, "data", e.db, "shard", "0", "segment", "day", time.UnixMilli(f.pos.Time).UTC().Format("20060102"))
+		if _, ok := kv.GetStoreManager().GetStoreByName(name); !ok {
+			e.fatalf("harness: source store %s was closed by Engine.EvictSegment although its data family is loaded", name)
+		}
+	}
+	e.class("evict")
+	if len(e.closedTargets()) > len(before) {
+		e.class("evict: target segment closed")
+	}
+	for _, k := range s.Keep {
+		for _, f := range e.fams {
+			e.touch(k, f.idx)
+		}
+	}
+	closed := e.closedTargets()
+	switch {
+	case len(closed) == 0:
+	case len(e.p.targets()) >= 2 && len(s.Keep) > 0:
+		e.class("evict: one target interval closed, the other looked up again")
+	default:
+		e.class("evict: every target interval closed")
+	}
+}
+
+// touch is the family lookup of a query on the target interval over the hour of a source family.
+func (e *env) touch(targetIdx, fam int) {
+	target := e.p.targets()[targetIdx]
+	ft := e.fams[fam].pos.Time
+	wasOpen := e.targetOpen(target, ft)
+	dfs := e.shard.GetDataFamilies(timeutil.Interval(target).Type(), timeutil.TimeRange{Start: ft, End: ft + hour - 1})
+	if !e.targetOpen(target, ft) {
+		e.fatalf("query lookup on %s over %s %02d:00 did not open the target segment %s", timeutil.Interval(target), e.fams[fam].pos.Date, e.fams[fam].pos.Hour, e.targetStoreName(target, ft))
+	}
+	for _, df := range dfs {
+		if df.Interval().Int64() != target {
+			e.fatalf("query lookup on %s returned family %s with interval %s", timeutil.Interval(target), df.Indicator(), df.Interval())
+		}
+	}
+	if !wasOpen {
+		e.class("query lookup reopened a closed target segment")
+	}
+}
+
+func (e *env) write(pts []point, direct bool) {
 	// rows keep their order per family; one Write call per family (see tickGuard)
 	var order []int
 	byFam := map[int][]*protoMetricsV1.Metric{}
@@ -825,8 +1128,21 @@ func (e *env) write(pts []point) {
 		if createsMemDB {
 			tickGuard.wait()
 		}
-		if err := e.n.Write(e.db, 0, byFam[fam]); err != nil {
-			e.fatalf("write: %v", err)
+		closedBefore := len(e.closedTargets())
+		if direct {
+			if err := e.writeDirect(f, byFam[fam]); err != nil {
+				e.fatalf("write (held data family): %v", err)
+			}
+			if closedBefore > 0 {
+				e.class("write through the held data family while a target segment is closed")
+			}
+		} else {
+			if err := e.n.Write(e.db, 0, byFam[fam]); err != nil {
+				e.fatalf("write: %v", err)
+			}
+			if len(e.closedTargets()) < closedBefore {
+				e.class("write (family looked up by the writer) reopened a closed target segment")
+			}
 		}
 		if createsMemDB {
 			tickGuard.created()
@@ -893,7 +1209,7 @@ func (e *env) memToFile(f *famState) {
 		return
 	}
 	e.nextID++
-	f.pending = append(f.pending, filePoints{ID: e.nextID, Points: f.mem})
+	f.files = append(f.files, &srcFile{filePoints: filePoints{ID: e.nextID, Points: f.mem}, done: map[int64]bool{}})
 	f.mem = nil
 }
 
@@ -1085,7 +1401,10 @@ func (e *env) inject(in inject) (failure string) {
 			}
 		}
 	}()
-	e.write(in.Points)
+	// through the held data family: the lookup of a new writer would reopen closed target
+	// segments in the middle of the job, and whether the job has already passed that interval
+	// depends on a map iteration order
+	e.write(in.Points, true)
 	e.flush([]int{in.Fam})
 	e.class("source flush committed while a rollup job was merging")
 	if in.Fam == in.JobFam {
@@ -1101,35 +1420,75 @@ func (e *env) inject(in inject) (failure string) {
 
 func (e *env) allFiles() (rs []filePoints) {
 	for _, f := range e.fams {
-		rs = append(rs, f.rolled...)
-		rs = append(rs, f.pending...)
+		for _, sf := range f.files {
+			rs = append(rs, sf.filePoints)
+		}
 	}
 	return rs
 }
 
-func (e *env) rolledFiles() (rs []filePoints) {
+// rolledFiles: the source files rolled up into the target so far.
+func (e *env) rolledFiles(target int64) (rs []filePoints) {
 	for _, f := range e.fams {
-		rs = append(rs, f.rolled...)
+		rs = append(rs, f.rolledInto(target)...)
 	}
 	return rs
+}
+
+// rolledAnywhere: the source files rolled up into at least one target.
+func (e *env) rolledAnywhere() (rs []filePoints) {
+	for _, f := range e.fams {
+		rs = append(rs, f.rolledAny()...)
+	}
+	return rs
+}
+
+// jobInputs: what the rollup job of a source family must do if it started now. Per target
+// interval: the files still waiting for it - if the target segment of the family's time is open;
+// an interval whose segment is not open is skipped by the job and its files keep waiting for it.
+type jobInputs struct {
+	byTarget map[int64][]*srcFile
+	skipped  []int64
+	files    map[*srcFile]bool // inputs of at least one interval
+	live     map[*srcFile]bool // files of the family waiting for at least one interval when the job starts
+}
+
+func (e *env) jobInputs(f *famState) *jobInputs {
+	in := &jobInputs{byTarget: map[int64][]*srcFile{}, files: map[*srcFile]bool{}, live: map[*srcFile]bool{}}
+	for _, target := range e.p.targets() {
+		w := f.waitingFor(target)
+		for _, sf := range w {
+			in.live[sf] = true
+		}
+		if !e.targetOpen(target, f.pos.Time) {
+			if len(w) > 0 {
+				in.skipped = append(in.skipped, target)
+			}
+			continue
+		}
+		in.byTarget[target] = w
+		for _, sf := range w {
+			in.files[sf] = true
+		}
+	}
+	return in
 }
 
 func (e *env) rollup(s step) {
 	sel := e.selected(s.Families)
-	jobStart := map[*famState]int{} // files of the family that are inputs of its job
-	for _, f := range sel {
-		jobStart[f] = len(f.pending)
-	}
+	jobs := map[*famState]*jobInputs{}
 	if s.Crash != "" {
 		e.crashDir = e.dir + "-image"
 		e.crashKind = s.Crash
 		theImager.arm(s.Crash, e.dir, e.crashDir)
 	}
 	if s.Force {
-		// Store.ForceRollup: every family of the source store starts its job (concurrently)
+		// Store.ForceRollup: every family of the source store starts its job (concurrently);
+		// no job opens or closes a store, so the inputs of all jobs are fixed now
 		stores := map[string]kv.Store{}
 		var names []string
 		for _, f := range sel {
+			jobs[f] = e.jobInputs(f)
 			name := filepath.Join(e.n.Dir, "data", e.db, "shard", "0", "segment", "day", time.UnixMilli(f.pos.Time).UTC().Format("20060102"))
 			st, ok := kv.GetStoreManager().GetStoreByName(name)
 			if !ok {
@@ -1149,7 +1508,8 @@ func (e *env) rollup(s step) {
 	} else {
 		for _, f := range sel {
 			theImager.nextJob()
-			jobStart[f] = len(f.pending) // the job takes the files waiting now
+			// the job takes the files waiting now; files flushed while it runs are not its inputs
+			jobs[f] = e.jobInputs(f)
 			var failure string
 			job := f.idx
 			theInjector.arm(e.dir, func(n int) {
@@ -1174,27 +1534,63 @@ func (e *env) rollup(s step) {
 		}
 		if taken {
 			e.crashFiles = e.allFiles()
+			for _, in := range jobs {
+				if len(in.skipped) > 0 {
+					e.class("crash image taken in a rollup step whose job skipped a target interval")
+				}
+			}
 		} else {
 			e.crashDir = ""
 		}
 	}
+	targets := e.p.targets()
 	for _, f := range sel {
-		if jobStart[f] == 0 && f.rollups > 0 {
+		in := jobs[f]
+		rolledBefore := len(f.rolledAny())
+		if len(in.files) == 0 && len(in.skipped) == 0 && f.rollups > 0 {
 			e.class("rollup repeated (no new source file)")
 			if e.reopened {
 				e.class("rollup repeated after reopen")
 			}
 		}
-		if jobStart[f] > 0 && len(f.rolled) > 0 {
+		if len(in.files) > 0 && rolledBefore > 0 {
 			e.class("more flushes then rollup")
 		}
-		if jobStart[f] > 0 && e.reopened {
+		if len(in.files) > 0 && e.reopened {
 			e.class("rollup after reopen with new files")
 		}
-		// files flushed while the job was running are not its inputs: they keep waiting
-		n := jobStart[f]
-		f.rolled = append(f.rolled, f.pending[:n]...)
-		f.pending = append([]filePoints(nil), f.pending[n:]...)
+		if len(in.skipped) > 0 {
+			switch {
+			case len(in.files) > 0:
+				e.class("rollup job: one target interval skipped (segment not open), the other completed")
+			case len(in.skipped) == len(targets):
+				e.class("rollup job: every target interval skipped (segment not open)")
+			default:
+				e.class("rollup job: one target interval skipped (segment not open), nothing waits for the other")
+			}
+		}
+		for target, files := range in.byTarget {
+			if len(files) == 0 {
+				continue
+			}
+			// a live file of the family that is NOT an input of this interval: it was merged into
+			// this interval by an earlier job that skipped another interval
+			for sf := range in.live {
+				if sf.done[target] {
+					e.class("rollup job: an interval merges new files while an older file waits only for the other interval (left over by a skip)")
+				}
+			}
+			for _, sf := range files {
+				if len(sf.done) > 0 {
+					e.class("rollup job: a previously skipped interval catches up (its segment is open again)")
+				}
+			}
+		}
+		for target, files := range in.byTarget {
+			for _, sf := range files {
+				sf.done[target] = true
+			}
+		}
 		f.rollups++
 	}
 }
@@ -1335,16 +1731,37 @@ type targetFamily struct {
 
 // targetFamilies lists every family of every segment directory of the target interval type on
 // disk and opens it through the shard (the path a query uses).
-func (e *env) targetFamilies(target int64) []targetFamily {
+//
+// Cases with evict steps (e.kvOnly): during the history the observation must not change which
+// segments are open, nor load tsdb data families into them (a loaded family keeps its segment
+// from being evicted). There the families of the OPEN stores are taken from the store manager,
+// the segments that are not open are reported in closed (nothing can change in them while they
+// are closed; they are read when they are open again, at the latest at the end of the history,
+// where everything is opened through the shard as before).
+func (e *env) targetFamilies(target int64) (rs []targetFamily, closed map[string]bool) {
 	dirType := typeDir(target)
 	dir := filepath.Join(e.n.Dir, "data", e.db, "shard", "0", "segment", dirType)
 	entries, err := os.ReadDir(dir)
 	if err != nil {
 		e.fatalf("list %s: %v", dir, err)
 	}
-	var rs []targetFamily
+	closed = map[string]bool{}
 	for _, ent := range entries {
 		seg := ent.Name()
+		if e.kvOnly {
+			st, ok := kv.GetStoreManager().GetStoreByName(filepath.Join(dir, seg))
+			if !ok {
+				closed[seg] = true
+				e.class("check while a target segment is closed")
+				continue
+			}
+			names := st.ListFamilyNames()
+			sort.Strings(names)
+			for _, name := range names {
+				rs = append(rs, targetFamily{Segment: seg, Family: name, kvFamily: st.GetFamily(name)})
+			}
+			continue
+		}
 		var start, end time.Time
 		if dirType == "year" {
 			start, err = time.Parse("2006", seg)
@@ -1382,13 +1799,14 @@ func (e *env) targetFamilies(target int64) []targetFamily {
 			rs = append(rs, targetFamily{Segment: seg, Family: name, kvFamily: df.Family()})
 		}
 	}
-	return rs
+	return rs, closed
 }
 
 // readTarget reads every stored value of the target interval: cell -> one value per file.
-func (e *env) readTarget(target int64, id *ids) map[cell][]stored {
+func (e *env) readTarget(target int64, id *ids) (map[cell][]stored, map[string]bool) {
 	out := map[cell][]stored{}
-	for _, tf := range e.targetFamilies(target) {
+	tfs, closed := e.targetFamilies(target)
+	for _, tf := range tfs {
 		snap := tf.kvFamily.GetSnapshot()
 		v := snap.GetCurrent()
 		files := v.GetAllFiles()
@@ -1444,7 +1862,7 @@ func (e *env) readTarget(target int64, id *ids) map[cell][]stored {
 		}
 		snap.Close()
 	}
-	return out
+	return out, closed
 }
 
 // ---- oracle -------------------------------------------------------------------------------------------
@@ -1459,9 +1877,12 @@ func sortedCells[V any](m map[cell]V) []cell {
 }
 
 // compare: stored cells of the target == aggregate of the model points of the given source files.
-func (e *env) compare(when string, target int64, want map[cell][]contrib, got map[cell][]stored) {
+func (e *env) compare(when string, target int64, want map[cell][]contrib, got map[cell][]stored, closed map[string]bool) {
 	iv := timeutil.Interval(target).String()
 	for _, c := range sortedCells(want) {
+		if closed[c.Segment] {
+			continue // not readable now; checked when the segment is open again
+		}
 		cs := want[c]
 		st, ok := got[c]
 		if !ok {
@@ -1570,38 +1991,57 @@ func (e *env) diagnose() string {
 			b.WriteString(" }")
 		}
 		snap.Close()
-		ids := func(fs []filePoints) (rs []string) {
-			for _, x := range fs {
-				rs = append(rs, fmt.Sprintf("%d(%d points)", x.ID, len(x.Points)))
+		var files []string
+		for _, x := range f.files {
+			var done []string
+			for _, tg := range e.p.targets() {
+				if x.done[tg] {
+					done = append(done, timeutil.Interval(tg).String())
+				}
 			}
-			return rs
+			files = append(files, fmt.Sprintf("%d(%d points, rolled up into %v)", x.ID, len(x.Points), done))
 		}
-		fmt.Fprintf(&b, "\n    model: %d points in memory, files waiting %v, files rolled up %v, rollup jobs %d", len(f.mem), ids(f.pending), ids(f.rolled), f.rollups)
+		fmt.Fprintf(&b, "\n    model: %d points in memory, flushed files %v, rollup jobs %d", len(f.mem), files, f.rollups)
 	}
 	return b.String()
 }
 
-// bookkeeping: source families list exactly their not-yet-rolled-up files (each for every
-// target interval); no target family keeps a reference file.
+// bookkeeping: source families list exactly their not-yet-rolled-up files, each for exactly
+// the target intervals it has not been rolled up into (file numbers grow in flush order); no
+// (open) target family keeps a reference file.
 func (e *env) checkBookkeeping(when string, fams []*famState, checkRefs bool) {
+	targets := e.p.targets()
 	for _, f := range fams {
 		snap := f.df.Family().GetSnapshot()
 		rf := snap.GetCurrent().GetRollupFiles()
 		snap.Close()
-		if len(rf) != len(f.pending) {
-			e.fatalf("%s: source family %s %02d:00 lists %d rollup files %v, %d flushed files wait for rollup", when, f.pos.Date, f.pos.Hour, len(rf), rf, len(f.pending))
+		waiting, ivs := f.waiting(targets)
+		if len(rf) != len(waiting) {
+			e.fatalf("%s: source family %s %02d:00 lists %d rollup files %v, %d flushed files wait for rollup (for %v)", when, f.pos.Date, f.pos.Hour, len(rf), rf, len(waiting), ivs)
 		}
-		for file, ivs := range rf {
-			if len(ivs) != len(e.p.targets()) {
-				e.fatalf("%s: source family %s %02d:00 file %d waits for %v, configured targets %v", when, f.pos.Date, f.pos.Hour, file, ivs, e.p.targets())
+		var numbers []table.FileNumber
+		for file := range rf {
+			numbers = append(numbers, file)
+		}
+		sort.Slice(numbers, func(i, j int) bool { return numbers[i] < numbers[j] })
+		for i, file := range numbers {
+			var got []int64
+			for _, iv := range rf[file] {
+				got = append(got, iv.Int64())
+			}
+			sort.Slice(got, func(a, b int) bool { return got[a] < got[b] })
+			if fmt.Sprint(got) != fmt.Sprint(ivs[i]) {
+				e.fatalf("%s: source family %s %02d:00: file %d (the %d. waiting file in flush order) waits for target intervals %v, it has not been rolled up into %v (configured targets %v)",
+					when, f.pos.Date, f.pos.Hour, file, i+1, got, ivs[i], targets)
 			}
 		}
 	}
 	if !checkRefs {
 		return
 	}
-	for _, target := range e.p.targets() {
-		for _, tf := range e.targetFamilies(target) {
+	for _, target := range targets {
+		tfs, _ := e.targetFamilies(target)
+		for _, tf := range tfs {
 			snap := tf.kvFamily.GetSnapshot()
 			refs := snap.GetCurrent().GetAllReferenceFiles()
 			snap.Close()
@@ -1612,10 +2052,12 @@ func (e *env) checkBookkeeping(when string, fams []*famState, checkRefs bool) {
 	}
 }
 
-func (e *env) checkTargets(when string, files []filePoints) {
+// checkTargets: every target interval holds exactly the source files filesOf(target).
+func (e *env) checkTargets(when string, filesOf func(target int64) []filePoints) {
 	id := e.resolveIDs()
 	for _, target := range e.p.targets() {
-		e.compare(when, target, expected(e.p, target, files), e.readTarget(target, id))
+		got, closed := e.readTarget(target, id)
+		e.compare(when, target, expected(e.p, target, filesOf(target)), got, closed)
 	}
 }
 
@@ -1632,10 +2074,10 @@ func (e *env) runQueries() {
 	defer c.Close()
 	c.AddLeaf("leaf0:1", e.n.Engine, "")
 	c.SetLayout(e.db, node.DBOption(intervals(e.p)...), map[string][]models.ShardID{"leaf0:1": {0}})
-	rolled := e.rolledFiles()
 	const layout = "2006-01-02 15:04:05"
 	for _, q := range e.p.Queries {
 		target := e.p.targets()[q.Target]
+		rolled := e.rolledFiles(target)
 		fd := fieldDefs[q.Field]
 		ft := e.p.Families[q.Fam].Time
 		start, end := ft, ft+hour-sec
@@ -1677,7 +2119,7 @@ func (e *env) runQueries() {
 		for _, f := range e.fams {
 			var unrolled []point
 			unrolled = append(unrolled, f.mem...)
-			for _, pf := range f.pending {
+			for _, pf := range f.waitingFor(target) {
 				unrolled = append(unrolled, pf.Points...)
 			}
 			for _, pt := range unrolled {
@@ -1761,18 +2203,26 @@ func runPlan(t tb, p *plan) (classes []string, nontrivial bool) {
 	}
 	e.openFamilies()
 	e.registerMetrics()
+	for _, s := range p.Steps {
+		e.kvOnly = e.kvOnly || s.Kind == "evict"
+	}
 
 	for i, s := range p.Steps {
 		when := fmt.Sprintf("step %d (%s)", i, s.Kind)
 		switch s.Kind {
 		case "write":
-			e.write(s.Points)
+			e.write(s.Points, s.Direct)
 		case "flush":
 			e.flush(s.Families)
 		case "rollup":
 			e.rollup(s)
 			// after a rollup job the selected families have nothing left to roll up
 			e.checkBookkeeping(when, e.fams, true)
+		case "evict":
+			e.evict(s)
+			e.checkBookkeeping(when, e.fams, false)
+		case "touch":
+			e.touch(s.Target, s.TouchFam)
 		case "reopen":
 			e.closeNode() // production shutdown flushes the memory databases
 			for _, f := range e.fams {
@@ -1785,7 +2235,15 @@ func runPlan(t tb, p *plan) (classes []string, nontrivial bool) {
 			e.checkBookkeeping(when, e.fams, false)
 		}
 		// the target holds exactly the rolled-up files after every step
-		e.checkTargets(when, e.rolledFiles())
+		e.checkTargets(when, e.rolledFiles)
+	}
+
+	if e.kvOnly {
+		// end of the history: every target segment is opened through the shard (the path a query
+		// uses) and read completely
+		e.kvOnly = false
+		e.checkTargets("end of the history (all target segments opened through the shard)", e.rolledFiles)
+		e.checkBookkeeping("end of the history", e.fams, true)
 	}
 
 	e.runQueries()
@@ -1822,14 +2280,14 @@ func runPlan(t tb, p *plan) (classes []string, nontrivial bool) {
 				waitRollup(f.df.Family())
 			}
 			when := fmt.Sprintf("after a crash (%s), restart and rollup #%d", e.crashKind, round+1)
-			img.checkTargets(when, e.crashFiles)
+			img.checkTargets(when, func(int64) []filePoints { return e.crashFiles })
 			img.checkBookkeeping(when, img.fams, false)
 		}
 	}
 
 	// classes and the non-trivial rule
-	rolled := e.rolledFiles()
 	for _, target := range p.targets() {
+		rolled := e.rolledFiles(target)
 		pair := "pair day->" + typeDir(target)
 		if len(rolled) > 0 {
 			e.class(pair)
@@ -1867,7 +2325,7 @@ func runPlan(t tb, p *plan) (classes []string, nontrivial bool) {
 		e.class("two targets")
 	}
 	for _, f := range e.fams {
-		if len(f.rolled) == 0 {
+		if len(f.rolledAny()) == 0 {
 			continue
 		}
 		tm := time.UnixMilli(f.pos.Time).UTC()
@@ -1888,7 +2346,7 @@ func runPlan(t tb, p *plan) (classes []string, nontrivial bool) {
 		if f.pos.Hour == 23 {
 			e.class("position: last hour of day")
 		}
-		if len(f.rolled) >= 2 {
+		if len(f.rolledAny()) >= 2 {
 			e.class(">= 2 source files of one source family")
 		}
 	}
@@ -1959,7 +2417,7 @@ func TestObservation_CompactedSourceFile(t *testing.T) {
 	rapid.Check(t, func(t *rapid.T) {
 		p := genPlan(t)
 		// keep the configuration, the families, the schema and the first (priming) write; then a second write
-		g := &stepGen{t: t, p: p, last: map[string]int{}, mem: map[int]bool{}, pend: map[int]bool{}, onlyFam: -1}
+		g := &stepGen{t: t, p: p, last: map[string]int{}, mem: map[int]bool{}, pend: map[int]bool{}, onlyFam: -1, closed: map[int]bool{}}
 		second := g.commit(g.write())
 		p.Steps = []step{p.Steps[0], {Kind: "flush"}, second, {Kind: "flush"}, {Kind: "compact"}, {Kind: "rollup"}}
 		p.Queries = nil
@@ -1999,7 +2457,7 @@ func TestObservation_CompactedSourceFile(t *testing.T) {
 			for _, s := range p.Steps {
 				switch s.Kind {
 				case "write":
-					e.write(s.Points)
+					e.write(s.Points, false)
 				case "flush":
 					e.flush(nil)
 				case "compact":
@@ -2020,7 +2478,7 @@ func TestObservation_CompactedSourceFile(t *testing.T) {
 				return
 			}
 			outcome = "every point reached the target"
-			e.checkTargets("after compaction of the source family and rollup", e.rolledFiles())
+			e.checkTargets("after compaction of the source family and rollup", e.rolledFiles)
 		}()
 		switch {
 		case soft.msg != "" && strings.Contains(soft.msg, "misses"):
